@@ -29,7 +29,8 @@ COMPONENTS = {"real": ["ECAgent.Batching.batch_run", "_run_model_for_batch", "_b
                        "models/systems/collectors are harness workloads (props/workloads.py)"]}
 PROBES = ["completion_reordered", "all_results_from_one_worker", "tie_in_finish_times", "fail_first", "fail_last",
           "max_ts_at_completion", "max_ts_below_completion", "max_ts_zero", "reps_single_combination",
-          "collectors_none", "collectors_empty_list", "collectors_invalid", "parameterlist_input", "serial_order_checked"]
+          "collectors_none", "collectors_empty_list", "collectors_invalid", "parameterlist_input", "serial_order_checked",
+          "second_batch_same_process"]
 TECHNIQUE = "deterministic simulation: simulated worker pool (seeded durations, tie-breaks, pickle boundary, failing executions at every position) with an exactly-once ledger and self-identifying records"
 LEVEL_TEXT = ("Seeded search over grid shapes, repetitions, step limits, collector selections and simulated pool schedules; an "
               "in-process execution ledger and self-identifying records decide exactly-once, no loss/duplication/mixing, "
@@ -132,9 +133,20 @@ def generate(rng, tier):
         fail = {"k": "all", "where": rng.choice(["ctor", "system"]), "t": rng.randint(0, 3)}
     elif r < 0.25:
         fail = {"k": rng.randrange(size * reps), "where": rng.choice(["ctor", "system"]), "t": rng.randint(0, 3)}
-    return {"grid": grid, "via": rng.choice(["dict", "plist"]), "reps": reps, "max_ts": max_ts, "collectors": coll,
+    second = None
+    if fail is None and coll["form"] != "invalid" and rng.random() < 0.3:
+        # a second, different batch in the same process: nothing of the first may carry over
+        second = {"reps": rng.randint(1, 3), "reverse": rng.random() < 0.7, "processes": rng.choice([1, 2, 3, 5]),
+                  "max_ts": rng.choice([None, rng.randint(0, base_stop + spread + 2)]),
+                  "collectors": {"form": "str", "names": [rng.choice(names)]} if rng.random() < 0.5 else
+                  {"form": "list", "names": rng.sample(names, rng.randint(1, 3))}}
+    return {"second": second, "grid": grid, "via": rng.choice(["dict", "plist"]), "reps": reps, "max_ts": max_ts, "collectors": coll,
             "processes": procs, "base_stop": base_stop, "spread": spread, "pool": gen_pool(rng, size * reps),
             "fail": fail}
+
+
+def as_list_total(sc):
+    return list(itertools.product(*[as_list(s) for _, s in sc["grid"]]))
 
 
 def build_args(sc):
@@ -307,6 +319,17 @@ def execute(sc, ctx):
              "coll": sc["collectors"]["form"], "fail": None}
     if fail is None:
         info = one_batch(ctx, sc, None, "batch")
+        sec = sc.get("second")
+        if sec and sc["collectors"]["form"] != "invalid":
+            sc2 = dict(sc)
+            sc2.update({"reps": sec["reps"], "processes": sec["processes"], "max_ts": sec["max_ts"],
+                        "collectors": sec["collectors"]})
+            if sec.get("reverse"):
+                sc2["grid"] = [[n_, ({"kind": s_["kind"], "v": list(reversed(s_["v"]))} if s_["kind"] in ("list", "tuple") else s_)]
+                               for n_, s_ in sc["grid"]][::-1]
+            if len(as_list_total(sc2)) * sec["reps"] <= 64:
+                one_batch(ctx, sc2, None, "second-batch")
+                ctx.probe("second_batch_same_process")
     elif fail["k"] == "all":
         info = {}
         for k in range(n):
